@@ -131,7 +131,7 @@ check_shape(CamWorld& c, const char* when)
 
 // one frame into an exact-size heap buffer: ASan guards both ends
 static int64_t
-get_one_frame(CamWorld& c, bool* ok)
+get_one_frame(CamWorld& c, bool* ok, bool undersized = false)
 {
     struct ImageShape s;
     memset(&s, 0, sizeof(s));
@@ -143,6 +143,13 @@ get_one_frame(CamWorld& c, bool* ok)
                     "bytes_of_image from strides (%zu) differs from "
                     "width*height*bytes (%zu)",
                     declared, n);
+    if (undersized && n > 0) {
+        // a caller's mistake: the buffer is one byte short.  The driver must
+        // refuse (writing the image would overrun the exact-size buffer) and
+        // the HAL then stops the camera.
+        --n;
+        probe("reach.undersized_frame_buffer");
+    }
     uint8_t* buf = (uint8_t*)malloc(n ? n : 1);
     size_t nb = n;
     struct ImageInfo info;
@@ -259,10 +266,12 @@ struct CamHarness : Harness
                 p.ops.push_back(gen_set(g, true));
                 snprintf(b, sizeof(b),
                          "run frames=%d getpause=%d trigs=%d triggap=%d "
-                         "trigdelay=%d stopat=%d",
+                         "trigdelay=%d stopat=%d badat=%d",
                          (int)g.range(1, 12), (int)(g.chance(0.5) ? 0 : g.range(1, 3000)),
                          (int)g.range(0, 14), (int)g.range(0, 3000),
-                         (int)g.range(0, 2000), (int)g.range(0, 30000));
+                         (int)g.range(0, 2000), (int)g.range(0, 30000),
+                         // a frame call with a short buffer ends this run
+                         g.chance(0.15) ? (int)g.range(0, 11) : -1);
                 p.ops.push_back(b);
             }
             Rng sg(mix64(seed, 0x5c));
@@ -413,14 +422,15 @@ struct CamHarness : Harness
         int64_t frames = op.i("frames", 3), getpause = op.i("getpause", 0);
         int64_t trigs = op.i("trigs", 0), triggap = op.i("triggap", 0),
                 trigdelay = op.i("trigdelay", 0), stopat = op.i("stopat", 1000);
-        int getter = spawn("getter", [w, frames, getpause] {
+        int64_t badat = op.i("badat", -1);
+        int getter = spawn("getter", [w, frames, getpause, badat] {
             for (int64_t i = 0; i < frames; ++i) {
                 if (w->stop_invoked_seq)
                     break;
                 bool ok = false;
                 uint64_t trig_before = w->triggers_invoked;
                 (void)trig_before;
-                int64_t id = get_one_frame(*w, &ok);
+                int64_t id = get_one_frame(*w, &ok, i == badat);
                 uint64_t ret = ++w->seq;
                 (void)ret;
                 if (!ok)
